@@ -32,7 +32,53 @@ func genC10(t *rapid.T) C10Case {
 	fixEmptyLists(tree)
 	u := UniverseFor(t, tree, false)
 	u.Stateless = drawStateless(t)
+	// sometimes the integer constant is registered with a raw Go type (int, int32): the engine
+	// does not normalise ConstantMap values, so built-in operators reject it at run time - and
+	// must reject it at compile time too. A sentinel value keeps it recognisable in Dump output.
+	if rapid.IntRange(0, 3).Draw(t, "rawconst") == 0 {
+		for i := range u.Consts {
+			if _, isInt := u.Consts[i].Val.X.(int64); isInt {
+				var raw interface{} = int(777001)
+				if rapid.Bool().Draw(t, "rawint32") {
+					raw = int32(777002)
+				}
+				u.Consts[i].Val.X = raw
+				name := u.Consts[i].Name
+				tree.Walk(func(x *m.Node) {
+					if x.Kind == m.KConst && x.Name == name {
+						x.Val = raw
+					}
+				})
+			}
+		}
+	}
 	return C10Case{U: *u, Tree: tree, Costs: genCosts(t, tree, finiteCosts), K: rapid.IntRange(1, 5).Draw(t, "k"), Src: m.Render(tree)}
+}
+
+// restoreRawConstants: Dump prints a raw-typed constant (int, int32) like an int64
+// literal; the sentinel values used for them are mapped back to the registered value.
+func restoreRawConstants(dt *m.Node, u *Universe) {
+	raw := map[int64]interface{}{}
+	for _, c := range u.Consts {
+		switch v := c.Val.X.(type) {
+		case int:
+			raw[int64(v)] = v
+		case int32:
+			raw[int64(v)] = v
+		}
+	}
+	if len(raw) == 0 {
+		return
+	}
+	dt.Walk(func(x *m.Node) {
+		if x.Kind == m.KConst {
+			if v, ok := x.Val.(int64); ok {
+				if r, isRaw := raw[v]; isRaw {
+					x.Val = r
+				}
+			}
+		}
+	})
 }
 
 // foldable: may the sub-tree be replaced by a constant under the rule C10 states?
@@ -158,6 +204,7 @@ func checkC10(c C10Case, r *Rec) *Violation {
 		if err != nil {
 			return Violf("C10: unreadable dump: %v\n%s", err, where())
 		}
+		restoreRawConstants(dt, u)
 		// (v) folding soundness (only ConstantFolding enabled: the structure is otherwise unchanged)
 		if mask == MaskFold {
 			if why := foldingSound(c.Tree, dt, stateless); why != "" {
